@@ -51,6 +51,21 @@ static char *dec(const char *tok)       /* "-" -> NULL, "x<hex>" -> malloc'd byt
 }
 static size_t declen(const char *tok) { return tok[0] == '-' ? 0 : (strlen(tok) - 1) / 2; }
 
+/* delimiter / comment arguments: in two scenarios out of three they are handed to the
+   library in one caller-owned buffer that is reused from call to call (a common calling
+   pattern: same address, new contents); otherwise in a fresh exact-size allocation
+   (so that AddressSanitizer sees any read past their end) */
+static TL unsigned scen_no = 0;
+static TL char dlbuf[128], cmbuf[128];
+static char *argstr(const char *tok, char *buf)
+{
+  char *d = dec(tok);
+  if (!d || scen_no % 3 == 0 || declen(tok) >= 127 || strlen(d) != declen(tok)) return d;
+  strcpy(buf, d); free(d);
+  return buf;
+}
+static void argfree(char *p) { if (p != dlbuf && p != cmbuf) free(p); }
+
 static void enc_n(const char *s, size_t n)
 {
   putchar('x');
@@ -339,7 +354,7 @@ static void do_set(econf_file *kf, int kd, const char *g, const char *k, const c
 
 static void do_parse(int o, char **t)
 {
-  char *path = dec(t[2]), *content = dec(t[3]), *dl = dec(t[4]), *cm = dec(t[5]);
+  char *path = dec(t[2]), *content = dec(t[3]), *dl = argstr(t[4], dlbuf), *cm = argstr(t[5], cmbuf);
   size_t clen = declen(t[3]);
   int py = t[6][0] == '1', jn = t[7][0] == '1';
   char *real = vpath(path);
@@ -372,7 +387,7 @@ static void do_parse(int o, char **t)
   else { printf("rc=%d line=%" PRIu64 " file=", e, ln); enc_path(fn); putchar('\n'); }
   free(fn);
   if (e != ECONF_SUCCESS && objs[o]) { printf("driver-error object returned with error\n"); exit(3); }
-  free(path); free(content); free(dl); free(cm); free(real);
+  free(path); free(content); argfree(dl); argfree(cm); free(real);
 }
 
 static void run_stream(FILE *in)
@@ -391,6 +406,7 @@ static void run_stream(FILE *in)
       clean_root();
       if (!thread_mode) { econf_reset_security_settings(); const char *none[] = { NULL }; econf_set_conf_dirs(none); }
       cb_mode = 0; for (int i = 0; i < n_reject; i++) free(reject[i]); n_reject = 0; cb_data_bad = 0;
+      scen_no++;
       printf("reset\n");
     } else if (!strcmp(c, "newkf")) {
       int o = atoi(t[1]); if (objs[o]) econf_free(objs[o]); objs[o] = NULL;
@@ -507,28 +523,28 @@ static void run_stream(FILE *in)
       printf("rc=%d\n", econf_newKeyFile_with_options(&objs[o], m)); free(opts); free(m);
     } else if (!strcmp(c, "readfile")) {
       int o = atoi(t[1]); if (objs[o]) econf_free(objs[o]); objs[o] = NULL;
-      char *p = dec(t[2]), *real = vpath(p), *dl = dec(t[3]), *cm = dec(t[4]);
+      char *p = dec(t[2]), *real = vpath(p), *dl = argstr(t[3], dlbuf), *cm = argstr(t[4], cmbuf);
       econf_file *res = NULL; begin_lib();
       econf_err e = cb_mode ? econf_readFileWithCallback(&res, real, dl, cm, the_callback, &cb_data_token) : econf_readFile(&res, real, dl, cm);
-      end_lib(); finish_read(o, e, res); free(p); free(real); free(dl); free(cm);
+      end_lib(); finish_read(o, e, res); free(p); free(real); argfree(dl); argfree(cm);
     } else if (!strcmp(c, "readdirs")) {
       int o = atoi(t[1]); if (objs[o]) econf_free(objs[o]); objs[o] = NULL;
-      char *d1 = vdir(t[2]), *d2 = vdir(t[3]), *name = dec(t[4]), *sfx = dec(t[5]), *dl = dec(t[6]), *cm = dec(t[7]);
+      char *d1 = vdir(t[2]), *d2 = vdir(t[3]), *name = dec(t[4]), *sfx = dec(t[5]), *dl = argstr(t[6], dlbuf), *cm = argstr(t[7], cmbuf);
       econf_file *res = NULL; begin_lib();
       econf_err e = cb_mode ? econf_readDirsWithCallback(&res, d1, d2, name, sfx, dl, cm, the_callback, &cb_data_token)
                             : econf_readDirs(&res, d1, d2, name, sfx, dl, cm);
-      end_lib(); finish_read(o, e, res); free(d1); free(d2); free(name); free(sfx); free(dl); free(cm);
+      end_lib(); finish_read(o, e, res); free(d1); free(d2); free(name); free(sfx); argfree(dl); argfree(cm);
     } else if (!strcmp(c, "readconfig")) {
       int o = atoi(t[1]);
-      char *proj = dec(t[2]), *usr = dec(t[3]), *name = dec(t[4]), *sfx = dec(t[5]), *dl = dec(t[6]), *cm = dec(t[7]);
+      char *proj = dec(t[2]), *usr = dec(t[3]), *name = dec(t[4]), *sfx = dec(t[5]), *dl = argstr(t[6], dlbuf), *cm = argstr(t[7], cmbuf);
       econf_file *res = objs[o];
       if (!res || (!res->root_prefix && res->parse_dirs_count == 0)) { printf("driver-error readconfig needs ROOT_PREFIX or PARSING_DIRS\n"); exit(3); }
       begin_lib();
       econf_err e = cb_mode ? econf_readConfigWithCallback(&res, proj, usr, name, sfx, dl, cm, the_callback, &cb_data_token)
                             : econf_readConfig(&res, proj, usr, name, sfx, dl, cm);
-      end_lib(); finish_read(o, e, res); free(proj); free(usr); free(name); free(sfx); free(dl); free(cm);
+      end_lib(); finish_read(o, e, res); free(proj); free(usr); free(name); free(sfx); argfree(dl); argfree(cm);
     } else if (!strcmp(c, "history")) {
-      char *d1 = vdir(t[1]), *d2 = vdir(t[2]), *name = dec(t[3]), *sfx = dec(t[4]), *dl = dec(t[5]), *cm = dec(t[6]);
+      char *d1 = vdir(t[1]), *d2 = vdir(t[2]), *name = dec(t[3]), *sfx = dec(t[4]), *dl = argstr(t[5], dlbuf), *cm = argstr(t[6], cmbuf);
       econf_file **files = NULL; size_t n = 0; begin_lib();
       econf_err e = cb_mode ? econf_readDirsHistoryWithCallback(&files, &n, d1, d2, name, sfx, dl, cm, the_callback, &cb_data_token)
                             : econf_readDirsHistory(&files, &n, d1, d2, name, sfx, dl, cm);
@@ -537,7 +553,7 @@ static void run_stream(FILE *in)
       if (e == ECONF_SUCCESS) { for (size_t i = 0; i < n; i++) { printf(" || "); dump_inline(files[i]); econf_free(files[i]); } free(files); }
       else if (files) printf(" HISTORY-POINTER-SET-ON-ERROR");
       putchar('\n');
-      free(d1); free(d2); free(name); free(sfx); free(dl); free(cm);
+      free(d1); free(d2); free(name); free(sfx); argfree(dl); argfree(cm);
     } else if (!strcmp(c, "errloc")) {
       char *fn = NULL; uint64_t ln = 0; econf_errLocation(&fn, &ln);
       printf("loc file="); enc_path(fn); printf(" line=%" PRIu64 "\n", ln); free(fn);
